@@ -92,7 +92,19 @@ C06_CASES = {
 }
 
 
+TEXT_CASES = {
+    ("C15", "loop-depth-underflow-fn-signature", "bd16179"): "while true { fn f() }",
+    ("C15", "loop-depth-underflow-method-signature", "bd16179"): "let i=0; while i < 3 { class B { bar() let { 1 } } }",
+    ("C15", "lambda-continue-in-loop", "de28c2e"): "for i in [1] { let f = || { continue; }; }",
+    ("C15", "lambda-break-in-loop", "de28c2e"): "while true { let f = || { break; }; break; }",
+    ("C15", "call-with-254-args", "48393ed"): "fn f(" + ", ".join("p%d" % i for i in range(254)) + ") { return p0; }\nprint(f(" + ", ".join("1" for _ in range(254)) + "));",
+    ("C15", "locals-255-plus-drop", "b00da9f"): "fn f() {\nif true {\n" + "".join("let a%d = %d;\n" % (i, i) for i in range(255)) + "1;\n}\nreturn 7;\n}\nprint(f());",
+}
+
+
 def main():
+    for (pid, name, commit), text in TEXT_CASES.items():
+        write(pid, name, commit, ("text", text))
     for (pid, name, commit), prog in C06_CASES.items():
         write(pid, name, commit, ("regression", prog))
     for (pid, name, commit), prog in list(CASES.items()):
